@@ -5,6 +5,7 @@ import TinsModel.Wire.Transport.ThUdp
   verifies under RFC 768 / RFC 8200 over the RFC pseudo header built from the parent's addresses, a computed 0 is sent as
   0xffff, no checksum is written without an IP / IPv6 parent, and the length field is the datagram's length.
 -/
+set_option autoImplicit false
 namespace Tins.Wire.Derived
 open Tins Tins.Wire Tins.Wire.Transport
 
